@@ -1290,6 +1290,14 @@ def do_load(w, op, p):
     rec = w.files[op["fid"]]
     if not rec["quantized"] or rec.get("unusable"):
         return "skipped"
+    if rec["ser"] == "direct":
+        # a dict handed over in memory shares the source model's tensors (torch's definition): once the source was
+        # updated in place it no longer is "the state_dict that was saved"
+        src = w.deps.get(rec["src"])
+        if (src is not None and src.stamp != rec["stamp"]) or sd_diff(rec["snap"], sd_snapshot(rec["sd_obj"]))[0]:
+            rec["unusable"] = True
+            w.probe("direct_dict_went_stale")
+            return "skipped"
     target = op.get("target", "same")
     restart = bool(op.get("restart"))
     if restart:
